@@ -32,6 +32,18 @@ def run(rep, tier, seed):
                     continue
                 exp = ref_decompress(s, nr)
                 case_decompress(b, s, rule, None, klass='decompress:' + stack + (':compute' if has_comp else ''), expect=exp, side=rnd.choice([L, R]))
+                if not has_comp and any(k_ in ('vsv', 'lsbv') for k_ in rule._kinds) and rnd.random() < 0.5:
+                    # the same residues, every size announced on the next WIDER form (1111 + 8 bits for a size below 15, 1111 1111 1111 + 16
+                    # bits below 255): not what section 7.4.2 prescribes, so no expected packet -- but a receiver meets such frames, and code
+                    # and model must read them alike (the value announced is the size, the residue follows the bits actually read)
+                    import schc_util as _su
+                    _su.WIDE_PREFIX[0] = True
+                    try:
+                        s_w = ref_compress(npd2, nr)
+                    finally:
+                        _su.WIDE_PREFIX[0] = False
+                    if s_w is not None and s_w != s:
+                        case_decompress(b, s_w, rule, None, klass='decompress:wider-size-prefix', expect=None, side=rnd.choice([L, R]))
         if i % 3 == 0:
             # a direction is given and the rule carries descriptors of the other direction, also in front of computed fields
             from p_c18 import dir_rule, KINDS_C
